@@ -896,7 +896,18 @@ class ClientSession:
                             resp.close()
                             raise NonHttpUrlRedirectClientError(r_url)
                         elif not scheme:
-                            parsed_redirect_url = url.join(parsed_redirect_url)
+                            base_url = url
+                            r_path = parsed_redirect_url.raw_path
+                            if r_path and not r_path.startswith("/"):
+                                # yarl merges a relative path with the decoded
+                                # segments of a base that does not end in "/":
+                                # drop the last segment from the raw path first
+                                base_path = url.raw_path
+                                base_url = url.with_path(
+                                    base_path[: base_path.rfind("/") + 1],
+                                    encoded=True,
+                                )
+                            parsed_redirect_url = base_url.join(parsed_redirect_url)
 
                         try:
                             redirect_origin = parsed_redirect_url.origin()
